@@ -580,6 +580,63 @@ theorem C16_cursor_seek_key (t : Tx) (id pfx k : Bytes) (fuel : Nat)
   exact C16_cursor_seek t fuel (newKeyCursor t id pfx) k _ _
     (Nat.lt_of_le_of_lt (Nat.le_trans hl3 (Nat.add_le_add hl1 hl2)) hfuel) hcache hpend
 
+theorem dropKey_length_le (k : Bytes) (l : List E) : (dropKey k l).length ≤ l.length := by
+  cases l with
+  | nil => simp [dropKey]
+  | cons e l => simp only [dropKey]; split <;> simp
+
+/-- **Direction change with the repositioning discharged**: for any two sources whose `Seek(k)`
+    walks `ld` / `lp` (and answers `true` exactly when it stands on a key — `ldbit_seek_ok`,
+    `treapit_seek_ok`, `cacheit_seek_ok`), `Next` after a backward move walks the ordered merge of
+    `ld` and `lp` without the current key `k`. -/
+theorem C16_cursor_turn_seek {δ π : Type} [ItOps δ] [ItOps π] (t : Tx) (fuel : Nat) (c : Cursor δ π)
+    (isDb : Bool) (k : Bytes) (ld lp : List E) (hf : ld.length < fuel)
+    (hcur : c.cur = some isDb) (hback : c.fwd = false) (hk : c.rawKey = some k)
+    (hd : Stream (ItOps.seek c.db k).1 ld) (hdo : (ItOps.seek c.db k).2 = (ItOps.key (ItOps.seek c.db k).1).isSome)
+    (hp : Stream (ItOps.seek c.pend k).1 lp) (hpo : (ItOps.seek c.pend k).2 = (ItOps.key (ItOps.seek c.pend k).1).isSome) :
+    CStream t fuel (c.next t fuel).1 (mergeF (shadow t) (dropKey k ld) (dropKey k lp)) :=
+  C16_cursor_turn t fuel c isDb k _ _ (Nat.lt_of_le_of_lt (dropKey_length_le k ld) hf) hcur hback hk
+    (syncOther_fwd c.db k ld hd hdo) (syncOther_fwd c.pend k lp hp hpo)
+
+/-- … end to end for the key cursor in ANY state reached by a backward move (only the immutable
+    parts of its three leaf iterators matter, `syncMergedIter` re-seeks them): `Next` walks the
+    ordered merge of the three layers from the current raw key `k` on, `k` itself excluded. -/
+theorem C16_cursor_turn_key (t : Tx) (fuel : Nat) (c : KeyCursor) (isDb : Bool) (k s sp : Bytes)
+    (hcur : c.cur = some isDb) (hback : c.fwd = false) (hk : c.rawKey = some k)
+    (hcs : c.db.ci.start = some s) (hci : Sorted c.db.ci.items)
+    (hps : c.pend.start = some sp) (hpi : Sorted c.pend.items)
+    (hfuel : c.db.db.items.length + c.db.ci.items.length < fuel) :
+    let LD := c.db.db.items.dropWhile fun e => compare e.1 k == Ordering.lt
+    let LC := rangeListFrom (if compare k s == Ordering.lt then s else k) s c.db.ci.limit c.db.ci.items
+    let LP := rangeListFrom (if compare k sp == Ordering.lt then sp else k) sp c.pend.limit c.pend.items
+    CStream t fuel (c.next t fuel).1
+      (mergeF (shadow t) (dropKey k (mergeF (shadowC c.db) LD LC)) (dropKey k LP)) := by
+  simp only []
+  let it1 : CacheIt := { c.db with db := (c.db.db.seek k).1, ci := (c.db.ci.seek k).1, fwd := true }
+  have hdb : Stream it1.db (c.db.db.items.dropWhile fun e => compare e.1 k == Ordering.lt) :=
+    ldbit_seek_stream c.db.db k
+  have hcis := treapit_seek_stream c.db.ci s k hcs hci
+  have hlen : (c.db.db.items.dropWhile fun e => compare e.1 k == Ordering.lt).length ≤ it1.db.items.length := by
+    show _ ≤ (LdbIt.seek c.db.db k).1.items.length
+    rw [ldb_seek_items]
+    exact dropWhile_length_le _ _
+  have hcache := cacheit_choose_stream _ _ _ it1 (Nat.le_refl _) hlen rfl hdb hcis
+  have hsh : shadowC it1 = shadowC c.db := rfl
+  rw [hsh] at hcache
+  have hpend := treapit_seek_stream c.pend sp k hps hpi
+  have hl1 := dropWhile_length_le (fun e : E => compare e.1 k == Ordering.lt) c.db.db.items
+  have hl2 : (rangeListFrom (if compare k s == Ordering.lt then s else k) s c.db.ci.limit c.db.ci.items).length
+      ≤ c.db.ci.items.length := by
+    unfold rangeListFrom
+    exact Nat.le_trans (takeWhile_length_le _ _) (dropWhile_length_le _ _)
+  have hl3 := mergeF_length_le (shadowC c.db) _
+    (c.db.db.items.dropWhile fun e => compare e.1 k == Ordering.lt)
+    (rangeListFrom (if compare k s == Ordering.lt then s else k) s c.db.ci.limit c.db.ci.items)
+    (Nat.le_refl _)
+  exact C16_cursor_turn_seek t fuel c isDb k _ _
+    (Nat.lt_of_le_of_lt (Nat.le_trans hl3 (Nat.add_le_add hl1 hl2)) hfuel) hcur hback hk
+    hcache (cacheit_seek_ok c.db k) hpend (treapit_seek_ok c.pend k)
+
 theorem ldb_last_items (d : LdbIt) : (LdbIt.last d).1.items = d.items := by
   unfold LdbIt.last; split <;> rfl
 
